@@ -42,7 +42,7 @@ func exec(op string) vlib.Res {
 	if len(f) < 2 {
 		return vlib.Res{Impl: "bad-op"}
 	}
-	if f[1] == "new" && f[0] != "e2e" && f[0] != "lad" && f[0] != "rl" && f[0] != "as" {
+	if f[1] == "new" && f[0] != "e2e" && f[0] != "lad" && f[0] != "rl" && f[0] != "as" && f[0] != "sock" {
 		return vlib.Res{Impl: "ok", Oracle: "-"}
 	}
 	switch f[0] {
@@ -68,6 +68,12 @@ func exec(op string) vlib.Res {
 		if f[1] == "serve" {
 			return execED(kv(f[2:]))
 		}
+	case "rx":
+		if f[1] == "facts" {
+			return execRX(kv(f[2:]))
+		}
+	case "sock":
+		return execSock(f)
 	case "sx":
 		if f[1] == "walk" {
 			return execSX(kv(f[2:]))
@@ -598,6 +604,23 @@ func execLad(f []string) vlib.Res {
 			seedDenial(names)
 		}
 		seedState(map[string]string{"cut": a["cut"], "fail": strings.ReplaceAll(a["fail"], "-", ""), "qc": fmt.Sprint(s.qclass)}, names, s.qtype, cd)
+		switch a["rm"] {
+		case "purge":
+			// an operator purge of the question: exact entry, covering cuts and failure state go
+			for p := 0; p < 3; p++ {
+				live.Cache.Purge(dns.Question{Name: names[p], Qtype: s.qtype, Qclass: s.qclass})
+			}
+		case "flood":
+			// capacity eviction: more validated cuts in the signer zone than its bound — the
+			// cut recorded above is the oldest and goes
+			for p := 0; p < 3; p++ {
+				zone := zoneOf(names[p])
+				for i := 0; i < 300; i++ {
+					d := fmt.Sprintf("f%d.%s", i, zone)
+					cache.VerifC05RecordCut(live.Cache, proofFor(d, zone), d, zone)
+				}
+			}
+		}
 		rung := func(r reply, calls int64) string {
 			if calls == 0 && r.m != nil && r.m.Rcode == dns.RcodeNameError {
 				if a["den"] == "1" && a["cut"] != "1" {
@@ -750,7 +773,22 @@ func facts() map[string]any {
 			recomposable = append(recomposable, t)
 		}
 	}
+	// the engines' header gate over its whole decision domain: opcode x QR, and each count around its bound
+	var acceptOps, acceptCounts []int
+	hdr := func(fl, qd, an, ns, ar int) []byte {
+		return []byte{0, 1, byte(fl >> 8), byte(fl), byte(qd >> 8), byte(qd), byte(an >> 8), byte(an), byte(ns >> 8), byte(ns), byte(ar >> 8), byte(ar)}
+	}
+	for qr := 0; qr < 2; qr++ {
+		for op := 0; op < 16; op++ {
+			acceptOps = append(acceptOps, server.VerifC05AcceptHeader(hdr(qr<<15|op<<11, 1, 0, 0, 0)))
+		}
+	}
+	for _, c := range [][4]int{{0, 0, 0, 0}, {1, 0, 0, 0}, {2, 0, 0, 0}, {1, 1, 0, 0}, {1, 2, 0, 0}, {1, 0, 1, 0}, {1, 0, 2, 0}, {1, 0, 0, 2}, {1, 0, 0, 3}, {1, 1, 1, 2}, {256, 0, 0, 0}} {
+		acceptCounts = append(acceptCounts, server.VerifC05AcceptHeader(hdr(0x0100, c[0], c[1], c[2], c[3])))
+	}
 	return map[string]any{
+		"acceptHeader_by_qr_opcode": acceptOps,
+		"acceptHeader_by_counts":    acceptCounts,
 		"as112_zone_last_labels":  tlds,
 		"wire_recomposable_types": recomposable,
 		"minMsgSizeLib":           dns.MinMsgSize, "maxMsgSizeLib": dns.MaxMsgSize,
